@@ -156,7 +156,7 @@ def check_sv(case, ans):
     n = len(P)
     bi = 0
     cur = None          # state of the current sieve
-    stats = case_stats.setdefault(case.line, {"pos": 0, "listed": 0, "extra": 0, "excused": 0, "ov": 0, "lov": 0})
+    stats = case_stats.setdefault(case.line, {"pos": 0, "listed": 0, "extra": 0, "excused": 0, "ov": 0, "lov": 0, "ovmax": 0})
     for c in cmds:
         if c[0] == "new":
             _, off, nblocks, R1, R2 = c
@@ -223,6 +223,7 @@ def check_block(P, cur, d, stats):
     stats["pos"] += len(reported)
     stats["listed"] += sum(len(f) for _, f in d["pos"])
     stats["ov"] = max(stats["ov"], sum(d["tov"]))
+    stats["ovmax"] = max([stats["ovmax"]] + d["tov"])
     stats["lov"] = max(stats["lov"], sum(d["lov"]))
     B, blk_no = cur["B"], cur["blk_no"]
     must = 0
@@ -428,6 +429,14 @@ def oracle(case, ans):
 def followup(case, ans):
     """model replay of an `sv` answer: same script, `run k` replaced by the positions the implementation
     reported; the model must print the same block reports (cursor hashes, overflow counters, fill, lists)."""
+    if case.op == "sv_cof" and not case.k:
+        # double large prime: try_factor64 is not modelled, the model replays the pair the implementation found
+        if ans == "none":
+            return case.line + " none", ans
+        if ans.startswith("some "):
+            t = ans.split(" ")
+            return case.line + f" {t[1]},{t[2]}", ans
+        return None
     if case.op != "sv" or "K" not in case.tag:
         return None
     sp = split_answer(ans)
@@ -552,6 +561,7 @@ FB_SHAPES = [
     (10000, 0.5, 0, [4], True),
     (23000, 0.5, 0, [2, 7, 12], True),    # crosses 2^19: large tables
     (23000, 0.9, 0, [5], True),
+    (70000, 0.65, 0, [2, 9], True),        # more than 2^16 primes: the 16-bit prime index of the large tables wraps
 ]
 
 
@@ -650,9 +660,11 @@ def cases(tier, rng, extended=False):
         n = rng.getrandbits(rng.choice([20, 64, 128, 300])) | 1
         yield Case(f"sv_fb {n} {rng.choice([8, 40, 100, 2566, 6000])}", k=False, tag="fb")
     shapes = ["plain", "partial", "recycle", "rehash"]
-    for rep in range(scale):
+    for rep in range(3 * scale):
         for size, dens, lo, nbs, kq in FB_SHAPES:
-            if quick and size >= 23000 and rep > 0:
+            if quick and size >= 5000 and rep > 0:
+                continue
+            if not quick and size >= 23000 and rep % 3:
                 continue
             P = make_fb(rng, size, dens, lo)
             large = P[-1] >= BLOCK
@@ -669,6 +681,8 @@ def cases(tier, rng, extended=False):
                     nb = 1
                 if quick and size >= 23000:
                     nb = min(nb, 7)
+                if quick and size >= 70000:
+                    nb = 2
                 k = kq if quick else (size <= 10000 or rep == 0)
                 # model-compared cases report few positions, the others at least 10^3 per request
                 want = rng.choice([30, 60]) if k else max(100, 1200 // max(1, nb))
@@ -703,7 +717,7 @@ def klass(case, ans):
         if st["extra"]:
             b.append("extra-listed")
         if st["ov"]:
-            b.append("overflow<=32" if st["excused"] == 0 else "overflow-lost")
+            b.append("overflow-lost-at-report" if st["excused"] else ("overflow>32" if st["ovmax"] > 32 else "overflow<=32"))
         if st["lov"]:
             b.append("large-overflow")
         return f"{t}{'/' + '+'.join(b) if b else ''}{bad}"
